@@ -60,13 +60,16 @@ def has_cyclic(topology: Topology) -> bool:
     """Has cyclic in topology."""
     node_num = len(topology[0])
     dsu = DisjointSetUnion(node_number=node_num)
+    # the union-find is indexed by position, the ids can be any integers
+    id2idx = {idx: i for i, idx in enumerate(topology[0])}
 
     for i in range(node_num):
-        node_a = topology[0][i]
-        node_b = topology[1][i]
         # skip the root node
-        if node_b == -1:
+        if topology[1][i] == -1:
             continue
+
+        node_a = i
+        node_b = id2idx[topology[1][i]]
 
         # check whether it is circle
         if dsu.is_same_set(node_a, node_b):
